@@ -309,6 +309,22 @@ pub fn run(rep: &mut Report) {
                 // the empty-record TypeError of year-month `with` is judged like the others
                 judge(rep, "C17.ym_with", "PlainYearMonth::with", &shape, case(), got, &exp_ym);
             }
+            // from_partial: no receiver; a missing year or month is a TypeError before any value is looked at
+            let mut exp = expect_date(None, &PD { day: None, ..p.clone() }, reject, false);
+            if let Exp::Ok(v) = exp {
+                let inl = (v.0 > -271_821 || (v.0 == -271_821 && v.1 >= 4)) && (v.0 < 275_760 || (v.0 == 275_760 && v.1 <= 9));
+                if !inl {
+                    exp = Exp::Range;
+                }
+            }
+            let exp_ym = match exp {
+                Exp::Ok(v) => Exp::Ok((v.0, v.1)),
+                Exp::Type => Exp::Type,
+                Exp::Range => Exp::Range,
+                Exp::Undecided => Exp::Undecided,
+            };
+            let got = call(|| PlainYearMonth::from_partial(mk_partial(&p), ov)).map(|d| (d.iso_year() as i64, d.iso_month()));
+            judge(rep, "C17.ym_from_partial", "PlainYearMonth::from_partial", &shape, case(), got, &exp_ym);
         }
         if it % 100_003 == 0 {
             rep.sample(&format!("d{it}"), || json!({"op": "PlainDate::with", "case": case(), "expected": format!("{:?}", expect_date(Some(recv), &p, reject, true))}));
